@@ -30,12 +30,17 @@ class FixFloatEqualityTransformer(
                     self.add_needed_import("math")
                     isclose_call = self.make_isclose_call(left, right)
                     self.report_change(original_node)
+                    # the parentheses of the comparison stay: `1 + (a != 0.1)`
                     return (
-                        isclose_call
+                        isclose_call.with_changes(
+                            lpar=original_node.lpar, rpar=original_node.rpar
+                        )
                         if isinstance(target.operator, cst.Equal)
                         else cst.UnaryOperation(
                             operator=cst.Not(),
                             expression=isclose_call,
+                            lpar=original_node.lpar,
+                            rpar=original_node.rpar,
                         )
                     )
         return updated_node
